@@ -42,6 +42,9 @@ type Operation struct {
 	Vars    []*VarDef `json:"vars,omitempty"`
 	Sel     []*Sel    `json:"sel"`
 	Comment []string  `json:"comment,omitempty"`
+	// VarsOneLine: all variable definitions on the operation's own line (only when no variable
+	// carries a comment directive of its own)
+	VarsOneLine bool `json:"vars_one_line,omitempty"`
 }
 
 type Fragment struct {
@@ -113,7 +116,25 @@ func (o *Operation) Text() string {
 	var sb strings.Builder
 	renderComment(&sb, "", o.Comment)
 	sb.WriteString(o.Kind + " " + o.Name)
-	if len(o.Vars) > 0 {
+	oneLine := o.VarsOneLine
+	for _, v := range o.Vars {
+		if len(v.Comment) > 0 {
+			oneLine = false
+		}
+	}
+	if len(o.Vars) > 0 && oneLine {
+		sb.WriteString("(")
+		for i, v := range o.Vars {
+			if i > 0 {
+				sb.WriteString(", ")
+			}
+			sb.WriteString("$" + v.Name + ": " + v.Type.String())
+			if v.Default != "" {
+				sb.WriteString(" = " + v.Default)
+			}
+		}
+		sb.WriteString(")")
+	} else if len(o.Vars) > 0 {
 		sb.WriteString("(\n")
 		for _, v := range o.Vars {
 			renderComment(&sb, "  ", v.Comment)
